@@ -118,7 +118,7 @@ func (e *targetEnv) ensureBystander(target string) error {
 		return err
 	}
 	b := rawc.New(c)
-	b.Timeout = 5 * time.Second
+	b.Timeout = patience
 	if r, err := b.Version(8192, "9P2000.u"); err != nil || r.Type != ref9p.Rversion {
 		return fmt.Errorf("bystander Tversion: %v", err)
 	}
@@ -134,6 +134,10 @@ func (e *targetEnv) ensureBystander(target string) error {
 	e.bystander = b
 	return nil
 }
+
+// patience bounds every wait whose expiry is read as "no longer served": long
+// enough that a stall of the whole machine is not mistaken for a wedged server.
+const patience = 30 * time.Second
 
 type deathErr struct{ msg string }
 
@@ -223,7 +227,7 @@ func run(c *Case) error {
 		return e.death("a new connection cannot be opened after the case: " + err.Error())
 	}
 	p := rawc.New(cn)
-	p.Timeout = 5 * time.Second
+	p.Timeout = patience
 	v, err := p.Version(4096, "9P2000")
 	p.Close()
 	if err != nil || v.Type != ref9p.Rversion {
